@@ -7,10 +7,10 @@ What is modelled (read off `/repo`, see DESIGN Appendix A, last paragraph):
   - `cpp_types.g_method_type_dict`  → `HState.reg`   (insertion-ordered dict, `ainsert` = `d[k] = v`)
   - `cpp_types.g_toplevel_ns`       → `HState.ns`    (namespaces + enums, *first* enum definition wins,
                                                       never reset by the library)
-  - the constructor default `extended_md={}` of `executor.__init__` — ONE dict object shared by
-    every executor until that executor's first `reset()` → `HState.sharedXmd`
+  - (the constructor default of `executor.__init__` is `extended_md=None` since fix cfca57a: every
+    executor gets a dict of its own — there is no shared dict any more)
   - `cpp_vars.unique_var_index`     → `HState.counter` (only advanced; never read by `view`)
-* per executor (`Exec`): `_job_option_blocks`, `_inject_blocks`, `_extended_md` (shared or own),
+* per executor (`Exec`): `_job_option_blocks`, `_inject_blocks`, `_extended_md` (its own dict),
   `_found_extended_md` (never reset).
 * `executor.__init__` of the three backends (`new`), `add_extended_md` (`addXmd`),
   `apply_ast_transformations` + `write_cpp_files` (`translateWith`), `reset` — including *where* a
@@ -196,24 +196,24 @@ structure Exec where
   backend : Backend
   job : List JobBlock
   inject : List (String × String)
-  /-- `_extended_md` is still the constructor's shared default dict -/
-  xmdShared : Bool
-  xmdOwn : Xmd
+  /-- `_extended_md`: a dict of the executor's own from the constructor on -/
+  xmd : Xmd
   found : List Found
 deriving DecidableEq, Repr
 
 structure HState where
   reg : Reg
   ns : NsReg
-  sharedXmd : Xmd
   execs : List Exec
   counter : Nat
 deriving DecidableEq, Repr
 
 /-- a fresh interpreter -/
-def s₀ : HState := ⟨[], NsReg.empty, [], [], 0⟩
+def s₀ : HState := ⟨[], NsReg.empty, [], 0⟩
 
-def effXmd (s : HState) (ex : Exec) : Xmd := if ex.xmdShared then s.sharedXmd else ex.xmdOwn
+/-- the extended-metadata dict a translation on `ex` consults (the state argument is kept from the
+time when never-reset executors shared the constructor's default dict) -/
+def effXmd (_s : HState) (ex : Exec) : Xmd := ex.xmd
 
 /-- `cpp_vars.unique_name(name, is_class_var)`: the ONLY use of the name counter.  The model's `View`
 does not contain the counter: results are compared up to renumbering of generated names, which is
@@ -293,8 +293,7 @@ def execAfter (ex : Exec) (st : Stage) (specs : List Spec) : Exec :=
   | .finder => { ex with found := ex.found ++ xitemsOf specs }
   | .write => { ex with found := ex.found ++ xitemsOf specs, inject := injectsOf specs,
                         job := ex.job ++ jobsOf specs }
-  | .done => { ex with found := ex.found ++ xitemsOf specs, inject := [], job := [],
-                       xmdShared := false, xmdOwn := [] }
+  | .done => { ex with found := ex.found ++ xitemsOf specs, inject := [], job := [], xmd := [] }
 
 def mkView (b : Backend) (q : Query) (a : MdAcc) (job : List JobBlock) : View :=
   { backend := b,
@@ -327,16 +326,13 @@ def translateWith (D : Defaults) (o : View → TRes) (s : HState) (e : Nat) (q :
 /-- `backend_executor()` : the constructor registers the backend's default method types on top of
 whatever the registry holds -/
 def newExec (D : Defaults) (s : HState) (b : Backend) : HState :=
-  { s with reg := ainsertAll s.reg (D b), execs := s.execs ++ [⟨b, [], [], true, [], []⟩] }
+  { s with reg := ainsertAll s.reg (D b), execs := s.execs ++ [⟨b, [], [], [], []⟩] }
 
-/-- `exe.add_extended_md(x)` : `self._extended_md.update(x)` — on the shared default dict if the
-executor has never been reset -/
+/-- `exe.add_extended_md(x)` : `self._extended_md.update(x)` on the executor's own dict -/
 def addXmd (s : HState) (e : Nat) (x : Xmd) : HState :=
   match s.execs[e]? with
   | none => s
-  | some ex =>
-    if ex.xmdShared then { s with sharedXmd := ainsertAll s.sharedXmd x }
-    else { s with execs := s.execs.set e { ex with xmdOwn := ainsertAll ex.xmdOwn x } }
+  | some ex => { s with execs := s.execs.set e { ex with xmd := ainsertAll ex.xmd x } }
 
 /-! ### histories -/
 
@@ -383,13 +379,12 @@ structure Probe where
   md : List MdItem
 deriving DecidableEq, Repr
 
-/-- **The same AST object handed to an executor again.**  `apply_ast_transformations` starts with
-`extract_metadata`, a node transformer that works IN PLACE on the caller's object: every
-`MetaData(...)` call is replaced by its first argument in the parent node.  A second translation of
-the same object therefore is the translation of the same query text without any metadata (the other
-in-place rewrites — collection calls and C++ function calls replaced by their code nodes — carry
-what the first translation resolved, they are part of the opaque translator). -/
-def reuseProbe (p : Probe) : Probe := { p with md := [] }
+/-- **The same AST object handed to an executor again.**  Since fix 1c4553a
+`apply_ast_transformations` works on a deep copy of the object it is given: the caller's object is
+never changed (before, `extract_metadata` removed its `MetaData` calls in place and this function
+was `{ p with md := [] }`).  A second translation of the same object — or of a query that contains
+it as a sub-tree — is the translation of the same query text with the same metadata. -/
+def reuseProbe (p : Probe) : Probe := p
 
 abbrev Result := Outcome × List Found
 
